@@ -11,6 +11,7 @@ import (
 	"strconv"
 	"strings"
 	"sync"
+	"sync/atomic"
 	"testing"
 	"time"
 
@@ -98,7 +99,7 @@ type call struct {
 	desc     string
 
 	err      error
-	returned bool
+	returned atomic.Bool // set after err/panicked (publishes them)
 	panicked string
 }
 
@@ -613,7 +614,7 @@ func (c *call) run(ctx context.Context, s *xmpp.Session) {
 		}
 		closeResp(resp)
 	})
-	c.returned = true
+	c.returned.Store(true)
 }
 
 // runHandler executes a handler-side call on the handler's encoder.
@@ -628,7 +629,7 @@ func (c *call) runHandler(t xmlstream.TokenReadEncoder) error {
 			c.err = t.EncodeElement(c.value(), *c.start)
 		}
 	})
-	c.returned = true
+	c.returned.Store(true)
 	return c.err
 }
 
@@ -774,7 +775,7 @@ func check(t interface {
 			hmu.Unlock()
 			fin := true
 			for _, c := range tc.handler {
-				if !c.returned {
+				if !c.returned.Load() {
 					fin = false
 				}
 			}
@@ -848,7 +849,7 @@ func check(t interface {
 		}
 	}
 	for _, c := range calls {
-		if !c.returned {
+		if !c.returned.Load() {
 			fail("call #%d did not return", c.idx)
 		}
 		got := seen[strconv.Itoa(c.idx)]
